@@ -67,6 +67,13 @@ def func_table(api, name):
     for a in fn.args.kwonlyargs:
         out["params"][a.arg] = api.annotation(a.annotation)
     body = [s for s in fn.body if not (isinstance(s, ast.Expr) and isinstance(s.value, ast.Constant))]
+    # defaults: an omitted keyword must add nothing, so its default is None (or False)
+    out["defaults"] = []
+    pos = fn.args.posonlyargs + fn.args.args
+    for a, d in list(zip(pos[len(pos) - len(fn.args.defaults):], fn.args.defaults)) + list(zip(fn.args.kwonlyargs, fn.args.kw_defaults)):
+        if d is None: continue
+        if not (isinstance(d, ast.Constant) and (d.value is None or d.value is False)):
+            out["defaults"].append((a.arg, ast.unparse(d) if hasattr(ast, "unparse") else "?"))
     out["shape_ok"] = False
     # statements before the final return: a keyword parameter that is re-bound there no longer carries what the caller passed
     out["rebound"] = []
@@ -98,9 +105,23 @@ def func_table(api, name):
             if isinstance(inner, ast.Call) and isinstance(inner.func, ast.Name) and inner.func.id == "_extend_args":
                 a = call_kw(inner, "args") or (inner.args[0] if inner.args else None)
                 fl = call_kw(inner, "flags") or (inner.args[1] if len(inner.args) > 1 else None)
+                if isinstance(a, ast.Name):
+                    for node in api.tree.body:
+                        tgts = node.targets if isinstance(node, ast.Assign) else ([node.target] if isinstance(node, ast.AnnAssign) else [])
+                        if any(isinstance(t_, ast.Name) and t_.id == a.id for t_ in tgts) and isinstance(getattr(node, "value", None), (ast.List, ast.Call, ast.ListComp)):
+                            out["shared_list"] = a.id
                 if isinstance(a, ast.List) and isinstance(fl, ast.List):
                     sub = []
+                    elts_ = []
                     for e in a.elts:
+                        # [*_CHECK_CMD, version]: a module-level constant list of literals is spliced in (a fresh list is built)
+                        if isinstance(e, ast.Starred) and isinstance(e.value, ast.Name):
+                            defs_ = [node.value for node in api.tree.body if isinstance(node, (ast.Assign, ast.AnnAssign)) and getattr(node, "value", None) is not None
+                                     and any(isinstance(t_, ast.Name) and t_.id == e.value.id for t_ in (node.targets if isinstance(node, ast.Assign) else [node.target]))]
+                            if len(defs_) == 1 and isinstance(defs_[0], (ast.List, ast.Tuple)) and all(isinstance(x_, ast.Constant) for x_ in defs_[0].elts):
+                                elts_ += list(defs_[0].elts); continue
+                        elts_.append(e)
+                    for e in elts_:
                         if isinstance(e, ast.Constant): sub.append(("lit", e.value))
                         elif isinstance(e, ast.Name): sub.append(("name", e.id))
                         else: sub.append(("?", ast.dump(e)))
@@ -111,6 +132,9 @@ def func_table(api, name):
                             flags.append((e.elts[0].value, e.elts[1].id))
                         else:
                             ok = False; out["why"].append("flag entry is not (constant, name): " + ast.dump(e)[:60])
+                            if isinstance(e, ast.Tuple) and len(e.elts) == 2 and isinstance(e.elts[0], ast.Constant):
+                                used = sorted({m.id for m in ast.walk(e.elts[1]) if isinstance(m, ast.Name) and m.id in out["params"]})
+                                if used: out.setdefault("computed", []).append((e.elts[0].value, used, ast.unparse(e.elts[1]) if hasattr(ast, "unparse") else "?"))
                     out["sub"] = sub; out["flags"] = flags; out["shape_ok"] = ok
     if not out["shape_ok"] and not out["why"]:
         out["why"].append("body is not `return _run_zerv_command(args=_extend_args(args=[...], flags=[...]))`")
@@ -175,6 +199,13 @@ def check(F, rep, tier):
         for pname, val, cond in tab.get("rebound", []):
             rep.bad("R18.6", "parameter-rebound:%s.%s" % (fname, pname), "zerv.%s re-binds its keyword `%s` to %s%s before building the command line: what reaches the CLI is not what the caller passed (a None/False argument then adds an option)" % (fname, pname, val, cond), PYFILE)
         if not tab.get("rebound"): rep.ok("R18.6", "zerv.%s passes its keywords on as received (none is re-bound)" % fname, nontrivial_key="rebind" + fname)
+        if tab.get("shared_list"):
+            rep.bad("R18.6", "shared-argument-list:" + fname, "zerv.%s hands the module-level list %s to _extend_args, which appends to it: the options of one call stay in the list and are sent again by every later call in the same process" % (fname, tab["shared_list"]), PYFILE)
+        for flag, used, expr in tab.get("computed", []):
+            rep.bad("R18.6", "flag-value-computed:%s.%s" % (fname, flag), "zerv.%s sends %s with the value of `%s` instead of the keyword %s as given: a None argument can then add an option (and a given one can be changed)" % (fname, flag, expr, used), PYFILE)
+        for pname, dflt in tab.get("defaults", []):
+            rep.bad("R18.7", "keyword-default:%s.%s" % (fname, pname), "zerv.%s(%s=%s): an omitted keyword has a value other than None/False, so a plain call adds an option the command line does not have (the CLI's own default may depend on other inputs)" % (fname, pname, dflt), PYFILE)
+        if not tab.get("defaults"): rep.ok("R18.7", "every optional parameter of zerv.%s defaults to None (an omitted keyword adds nothing)" % fname, nontrivial_key="dflt" + fname)
         if not tab["shape_ok"]:
             rep.undecided("R18.4", "unrecognised-shape:" + fname, "zerv.%s: %s" % (fname, "; ".join(tab["why"])), PYFILE); continue
         kwonly = [k for k in tab["params"] if k not in tab["positional"]]
@@ -327,8 +358,10 @@ def extend_args_shape(api, rep):
 def no_decorators(api, rep):
     """R18.5: the public functions and the two helpers are plain functions: a decorator (lru_cache, retry, ...) changes what a
     call returns or when the command runs"""
-    for nme in ("version", "flow", "check", "render", "_extend_args", "_run_zerv_command"):
-        fn = api.funcs.get(nme)
+    # every function of the module: a cache on a helper that the public functions delegate to has the same effect
+    allf = {n_.name: n_ for n_ in ast.walk(api.tree) if isinstance(n_, (ast.FunctionDef, ast.AsyncFunctionDef))} if getattr(api, "tree", None) is not None else {}
+    for nme in sorted(set(("version", "flow", "check", "render", "_extend_args", "_run_zerv_command")) | set(allf)):
+        fn = api.funcs.get(nme) or allf.get(nme)
         if fn is None: continue
         if fn.decorator_list:
             rep.bad("R18.5", "decorated:" + nme, "zerv.%s carries decorator(s) %s: the call no longer runs the command line every time (e.g. a cache returns stale output when the environment, the clock or the repository changed)" % (nme, [ast.unparse(d_) if hasattr(ast, "unparse") else ast.dump(d_) for d_ in fn.decorator_list]), PYFILE)
